@@ -475,7 +475,7 @@ func (n *PathIndexNode) Get(src, dst reflect.Value) error {
 	}
 	switch src.Type().Kind() {
 	case reflect.Array, reflect.Slice:
-		if src.Len() > n.selector {
+		if n.selector >= 0 && src.Len() > n.selector {
 			if n.child != nil {
 				return n.child.Get(src.Index(n.selector), dst)
 			}
